@@ -593,6 +593,18 @@ func TestHandmadeRelocation(t *testing.T) {
 	if f := v.Find("deep/f.txt"); f == nil || !bytes.Equal(v.ReadFile(m.reader(), f), helloData) {
 		t.Fatalf("deep/f.txt wrong")
 	}
+	for name, mut := range map[string]func(mm *timg){
+		"pl-missing": func(mm *timg) { o := bytes.Index(mm.b[22*tbs:], []byte("PL")) + 22*tbs; mm.b[o], mm.b[o+1] = 'Z', 'Z' },
+		"pl-wrong":   func(mm *timg) { o := bytes.Index(mm.b[22*tbs:], []byte("PL")) + 22*tbs; copy(mm.b[o+4:], b32(21)) },
+		"re-missing": func(mm *timg) { o := bytes.Index(mm.b[21*tbs:], []byte("RE")) + 21*tbs; mm.b[o], mm.b[o+1] = 'Z', 'Z' },
+		"cl-missing": func(mm *timg) { o := bytes.Index(mm.b[20*tbs:], []byte("CL")) + 20*tbs; mm.b[o], mm.b[o+1] = 'Z', 'Z' },
+	} {
+		mm := m.clone()
+		mut(mm)
+		if r := rules(mm.parse()); r["rr-relocation"] == 0 || r["checker-internal"] != 0 {
+			t.Errorf("%s: rr-relocation did not fire: %v", name, r)
+		}
+	}
 }
 
 func TestHandmadeJoliet(t *testing.T) {
@@ -776,6 +788,7 @@ type buildOpts struct {
 	opts      iso9660.FinalizeOptions
 	symlink   bool
 	dotfile   bool
+	longnames bool
 	deep      int // extra directory nesting depth (0 = none)
 	truncSize int64
 }
@@ -801,6 +814,15 @@ func buildLib(t *testing.T, name string, bo buildOpts) (string, []libFile, []str
 	dirs, files := libTree()
 	if bo.dotfile {
 		files = append(files, libFile{"long/.hidden", pattern(304, 9)})
+	}
+	if bo.longnames {
+		files = append(files,
+			libFile{"long/" + strings.Repeat("n", 100) + ".txt", pattern(400, 20)},
+			libFile{"long/" + strings.Repeat("x", 180) + ".data", pattern(401, 21)},
+			libFile{"long/" + strings.Repeat("y", 250), pattern(402, 22)},
+			libFile{"long/" + strings.Repeat("j", 60) + ".j64", pattern(403, 23)},
+			libFile{"long/" + strings.Repeat("k", 61) + ".k65", pattern(404, 24)},
+			libFile{"long/unicode-\u00e9\u4e16\u754c.txt", pattern(405, 25)})
 	}
 	if bo.deep > 0 {
 		p := "deep"
@@ -865,6 +887,16 @@ func buildLib(t *testing.T, name string, bo buildOpts) (string, []libFile, []str
 				return
 			}
 			if err := os.Symlink("/abs/../target/./x", filepath.Join(fs.Workspace(), "abslink")); err != nil {
+				ch <- res{err}
+				return
+			}
+		}
+		if bo.longnames && bo.symlink {
+			if err := os.Symlink(strings.Repeat("seg/", 70)+"end", filepath.Join(fs.Workspace(), "longlink")); err != nil {
+				ch <- res{err}
+				return
+			}
+			if err := os.Symlink(strings.Repeat("c", 251), filepath.Join(fs.Workspace(), "longcomponent")); err != nil {
 				ch <- res{err}
 				return
 			}
@@ -1015,6 +1047,8 @@ func TestLibraryImages(t *testing.T) {
 		{"rr-bs8192", buildOpts{bs: 8192, opts: iso9660.FinalizeOptions{RockRidge: true}}},
 		{"plain-bs4096", buildOpts{bs: 4096, opts: iso9660.FinalizeOptions{}}},
 		{"joliet-bs4096", buildOpts{bs: 4096, opts: iso9660.FinalizeOptions{Joliet: true}}},
+		{"rr-longnames", buildOpts{bs: 2048, symlink: true, longnames: true, opts: iso9660.FinalizeOptions{RockRidge: true}}},
+		{"joliet-longnames", buildOpts{bs: 2048, longnames: true, opts: iso9660.FinalizeOptions{Joliet: true}}},
 		{"rr-small-backing-file", buildOpts{bs: 2048, truncSize: 4096, opts: iso9660.FinalizeOptions{RockRidge: true}}},
 	}
 	for _, vr := range variants {
@@ -1036,7 +1070,10 @@ func TestLibraryImages(t *testing.T) {
 			if vr.bo.opts.RockRidge {
 				compareExact(t, vr.name+"/primary", img.Primary, rd, files, dirs)
 				if vr.bo.symlink {
-					for _, p := range []string{"a/link", "abslink"} {
+					for _, p := range []string{"a/link", "abslink", "longlink", "longcomponent"} {
+						if !vr.bo.longnames && strings.HasPrefix(p, "long") {
+							continue
+						}
 						n := img.Primary.Find(p)
 						if n == nil {
 							t.Logf("%s: NOTFOUND symlink %q", vr.name, p)
